@@ -24,7 +24,9 @@ func main() {
 	debug.SetGCPercent(1000) // the library allocates heavily (a regexp per token); keep 16 workers busy
 	debug.SetMemoryLimit(20 << 30)
 	// hard guard: the sandbox has no memory limit; a runaway allocation must not take the machine down
-	syscall.Setrlimit(syscall.RLIMIT_AS, &syscall.Rlimit{Cur: 40 << 30, Max: 40 << 30})
+	if !raceEnabled { // the race detector reserves far more address space than it uses
+		syscall.Setrlimit(syscall.RLIMIT_AS, &syscall.Rlimit{Cur: 40 << 30, Max: 40 << 30})
+	}
 	switch os.Args[1] {
 	case "gen":
 		seed := int64(1)
